@@ -269,9 +269,42 @@ def modelXForeach (B : Bool) (ws : List String) : String :=
 def toggleImg (a : AnyImage) (m : Mem) (x y : Int) : Mem := toggleAt a.2.view m x y
 def dumpImg (a : AnyImage) (m : Mem) : String := dumpHex a.2.view a.1.bits m
 
+/-- steps of an `img realign` op: (how, w2, h2, a1)+ -/
+def parseCalls : List String → Option (List (Nat × Nat × Nat))
+  | [] => some []
+  | how :: w :: h :: a :: rest =>
+    if how == "xy" || how == "pt" then
+      match w.toNat?, h.toNat?, a.toNat?, parseCalls rest with
+      | some w, some h, some a, some cs => some ((w, h, a) :: cs)
+      | _, _, _, _ => none
+    else none
+  | _ => none
+
+def layoutStr (l : Lay) : String :=
+  s!"w={l.w},h={l.h},vw={l.w},vh={l.h},rs={l.stride},al=" ++
+    (if l.w = 0 || l.h = 0 then "-" else ".".intercalate (List.replicate l.h "0"))
+
+/-- layouts after construction and after every call -/
+def layoutTrace (x : AnyLay) : List (Nat × Nat × Nat) → List Lay
+  | [] => [x.2]
+  | c :: cs => x.2 :: layoutTrace (x.recreate c) cs
+
+def modelRealign (L : List Fmt) (T w h a0 : String) (rest : List String) : String :=
+  match Fmt.parse T, [w, h, a0].mapM String.toNat?, parseCalls rest with
+  | some f, some [w, h, a0], some calls =>
+    if calls.isEmpty then "bad-op" else
+    if !L.contains f then "bad-type" else
+    let x : AnyLay := ⟨f, Lay.make f w h a0⟩
+    let tr := layoutTrace x calls
+    let ls := " ".intercalate ((List.range tr.length).zip tr |>.map (fun (k, l) => s!"l{k}={layoutStr l}"))
+    let i := indexOf (calls.foldl AnyLay.recreate x).1 L
+    s!"A: i={indexOf f L} {ls} i1={i} | C: {ls}"
+  | _, _, _ => "bad-op"
+
 def modelImg (B : Bool) (ws : List String) : String :=
   let L7 := if B then LB else L7
   match ws with
+  | "realign" :: T :: w :: h :: a0 :: rest => modelRealign L7 T w h a0 rest
   | ["dims", T, w, h, s] =>
     match Fmt.parse T, [w, h, s].mapM String.toNat? with
     | some f, some [w, h, s] =>
@@ -576,6 +609,17 @@ def judgeImg (B : Bool) (ws : List String) (obs : String) : String :=
       else if field "eq2" a != some "1" || field "eq3" a != some "1" then fail "view-copy-not-equal-to-source"
       else if field "a" a != field "rd" a then fail "write-through-view-copy-not-visible-through-original"
       else if without ["i2", "i3"] a != c then fail "view-copy-differs-from-concrete"
+      else "ok"
+    | _, _ => fail ("unexpected-observation:" ++ obs.take 60)
+  | "realign" :: T :: _ =>
+    match Fmt.parse T, parts with
+    | some f, ["A:" :: a, "C:" :: c] =>
+      let own := some (toString (indexOf f L7))
+      if field "i" a != own || field "i1" a != own then fail "recreate-changed-the-held-type"
+      else if without ["i", "i1"] a != c then
+        -- name the first step whose layout differs
+        let bad := ((without ["i", "i1"] a).zip c).find? (fun (x, y) => x != y)
+        fail ("row-layout-after-recreate-differs-from-concrete:" ++ (match bad with | some (x, y) => x ++ "/" ++ y | none => "length"))
       else "ok"
     | _, _ => fail ("unexpected-observation:" ++ obs.take 60)
   | "vassign" :: T :: _ =>
